@@ -347,3 +347,34 @@ def inlined_func(fx, fn, depth=2, stack=()):
         out = fn
     _CACHE[key] = out
     return out
+
+
+_ALWAYS = {}
+
+
+def always_inlined(fx, g):
+    """Is g a helper that the inlined views absorb completely - unknown to the rules and spliced in at every one of its
+    call sites?  Class-wide scans then skip g itself (its code is seen inside its callers' views)."""
+    key = (id(fx), g.key())
+    if key in _ALWAYS:
+        return _ALWAYS[key]
+    _ALWAYS[key] = False
+    ok = False
+    if not os.environ.get('VERIF_NO_INLINE') and g.d.get('cfg') and g.body is not None and g.kind not in ('lambda', 'ctor', 'dtor', 'conversion'):
+        sites = fx.callers.get(g.usr, [])
+        if sites:
+            ok = True
+            for cf, c in sites:
+                top = cf
+                seen = 0
+                while top.kind == 'lambda' and top.parent_usr and seen < 10:
+                    ps = fx.by_usr(top.parent_usr)
+                    if not ps:
+                        break
+                    top = ps[0]
+                    seen += 1
+                if cf.kind == 'lambda' or eligible(fx, cf, c, ()) is not g:
+                    ok = False
+                    break
+    _ALWAYS[key] = ok
+    return ok
